@@ -492,6 +492,16 @@ fn key_addr_like(f: &Fixture, w: &World) -> Option<Vec<u8>> {
     None
 }
 
+/// the collateral rules are known to be skipped when the Plutus scripts are reference scripts: keep
+/// that class apart from transactions that carry their scripts in the witness set
+fn rule_class(rule: &str, tx: &[u8]) -> String {
+    if rule.starts_with("collateral-") {
+        let wit = [3u64, 6, 7].iter().any(|k| wits_get(tx, *k).is_some());
+        format!("{rule}:scripts={}", if wit { "witness" } else { "reference" })
+    } else {
+        rule.to_string()
+    }
+}
 fn has_phase2(f: &Fixture, w: &World) -> bool {
     eval_langs(f, w).map(|l| !l.is_empty()).unwrap_or(false)
 }
@@ -772,6 +782,23 @@ fn m_collateral_non_ada(r: &mut Rng, c: &MutCtx, w: &World) -> Option<World> {
     let assets = vec![(r.bytes(28), vec![(b"tok".to_vec(), 1 + r.below(9))])];
     Some(replace_collateral(r, w, addr, s, assets))
 }
+/// collateral input with two asset names under one policy, collateral return that gives back only one
+/// of them: the other asset would be forfeited, so the balance is not "nothing but lovelace"
+fn m_collateral_partial_asset_return(r: &mut Rng, c: &MutCtx, w: &World) -> Option<World> {
+    if !has_phase2(c.f, w) || !matches!(c.f.era, Era::Babbage | Era::Conway) {
+        return None;
+    }
+    let (s, ret, _) = collateral_state(w)?;
+    let addr = key_addr_like(c.f, w)?;
+    let pol = r.bytes(28);
+    let (qa, qb) = (1 + r.below(9), 1 + r.below(9));
+    let extra = 3_000_000u64;
+    let both = vec![(pol.clone(), vec![(b"A".to_vec(), qa), (b"B".to_vec(), qb)])];
+    let kept = vec![(pol, vec![(if r.bool() { b"A".to_vec() } else { b"B".to_vec() }, qa)])];
+    let mut n = replace_collateral(r, w, addr.clone(), s.checked_add(extra)?, both);
+    n.tx = body_set(&n.tx, 16, Some(mk_output(&addr, ret.checked_add(extra)?, &kept, false)));
+    Some(n)
+}
 fn m_collateral_annotation(r: &mut Rng, c: &MutCtx, w: &World) -> Option<World> {
     if !matches!(c.f.era, Era::Babbage | Era::Conway) {
         return None;
@@ -1023,7 +1050,7 @@ fn m_language(_r: &mut Rng, c: &MutCtx, w: &World) -> Option<World> {
     Some(n)
 }
 
-const MUTATORS: [(&str, &str, MutFn); 32] = [
+const MUTATORS: [(&str, &str, MutFn); 33] = [
     ("validity-interval", "ttl==slot(upper bound exclusive in the ledger specification)", m_ttl_equals_slot),
     ("inputs-nonempty", "inputs=[]", m_inputs_empty),
     ("inputs-in-utxo", "utxo-entry-of-an-input-removed", m_input_missing),
@@ -1042,6 +1069,7 @@ const MUTATORS: [(&str, &str, MutFn); 32] = [
     ("collateral-kind", "script-locked-collateral", m_collateral_script_locked),
     ("collateral-amount", "collateral-below-percentage", m_collateral_too_small),
     ("collateral-amount", "collateral-with-other-assets", m_collateral_non_ada),
+    ("collateral-amount", "collateral-return-gives-back-only-part-of-the-assets", m_collateral_partial_asset_return),
     ("collateral-annotation", "total-collateral-differs-from-balance", m_collateral_annotation),
     ("mint-policy-witness", "mint-under-a-policy-without-script", m_mint_unwitnessed),
     ("mint-policy-witness", "policy-script-removed", m_mint_script_dropped),
@@ -1124,7 +1152,7 @@ fn mk_base(ctx: &mut Reports, f: &Fixture) -> Option<Base> {
     // an accepted base that breaks a claimed rule is itself a witness of the property's violation
     for r in &still {
         if claimed(f.era, r) {
-            ctx.violation(&format!("C38:{}:{}:accepted", era_name(f.era), r), &format!("{} (tables as in the test suite) breaks rule {r} by the own predicate and is accepted", f.name), json!({"fixture_name": f.name, "base": true}));
+            ctx.violation(&format!("C38:{}:{}:accepted", era_name(f.era), rule_class(r, &f.tx_bytes)), &format!("{} (tables as in the test suite) breaks rule {r} by the own predicate and is accepted", f.name), json!({"fixture_name": f.name, "base": true}));
         }
     }
     Some(Base { f: f.clone(), w, sdh_ok, ev })
@@ -1199,7 +1227,7 @@ fn single(ctx: &mut Ctx, b: &Base, bi: usize, mi: usize, seed: u64, verbose: boo
                     ctx.set_insert(&format!("matrix:{}", short(b.f.name)), &format!("{rule}[{variant}]=ACCEPTED"));
                     if is_claimed {
                         ctx.violation(
-                            &format!("C38:{era}:{rule}:accepted"),
+                            &format!("C38:{era}:{}:accepted", rule_class(rule, &a.w.tx)),
                             &format!("{} with {variant} breaks rule {rule} (own predicate: false{}) and is still accepted by validate_tx", b.f.name, if a.exact { ", every other predicate unchanged" } else { "" }),
                             json!({"base": bi, "fixture_name": b.f.name, "mutator": mi, "variant": variant, "case_seed": seed.to_string(), "world": world_json(&a.w)}),
                         );
@@ -1273,7 +1301,7 @@ fn pair(ctx: &mut Ctx, b: &Base, bi: usize, m1: usize, m2: usize, seed: u64, ver
             if s1 && alone2 == Some(true) {
                 for (r, c) in [(a1.rule, c1), (r2, c2)] {
                     if c {
-                        ctx.violation(&format!("C38:{era}:{r}:accepted"), &format!("{} with the pair {}+{} is accepted (each is accepted alone too)", b.f.name, a1.variant, v2), json!({"base": bi, "pair": [m1, m2], "case_seed": seed.to_string(), "world": world_json(&w2)}));
+                        ctx.violation(&format!("C38:{era}:{}:accepted", rule_class(r, &w2.tx)), &format!("{} with the pair {}+{} is accepted (each is accepted alone too)", b.f.name, a1.variant, v2), json!({"base": bi, "pair": [m1, m2], "case_seed": seed.to_string(), "world": world_json(&w2)}));
                     }
                 }
             } else if c1 || c2 {
